@@ -1,4 +1,5 @@
-(* C15, the checker AS IT IS on the fragment without type parameters / type arguments: a program
+(* C15, regression analysis: the checker BEFORE fix d524b1f (check_gen false, the instance-order
+   defect) on the fragment without type parameters / type arguments: a program
    that satisfies the declarative rules is either accepted or rejected with `Undefined` (T-002) -
    the instance-order defect is the only way in which a well-typed program of the fragment is
    rejected, and no other error variant can be reported for it. *)
@@ -459,9 +460,9 @@ Section FaithfulDefs.
   Qed.
 End FaithfulDefs.
 
-(* the checker as it is, on a well-typed program of the fragment: accepted, or `Undefined` *)
-Theorem check_faithful_mono : forall p,
-  mono_prog p = true -> has_type_b p = true -> (exists q, check p = COk q) \/ check p = CErr EUndefined.
+(* the checker before the fix, on a well-typed program of the fragment: accepted, or `Undefined` *)
+Theorem check_before_fix_mono : forall p,
+  mono_prog p = true -> has_type_b p = true -> (exists q, check_before_fix p = COk q) \/ check_before_fix p = CErr EUndefined.
 Proof.
   intros p Hm Ht. pose proof Ht as Ht0. unfold has_type_b in Ht.
   apply andb_true_iff in Ht. destruct Ht as [Ht Hdefs]. apply andb_true_iff in Ht. destruct Ht as [Hn Hdecls].
@@ -474,7 +475,7 @@ Proof.
   destruct (build_symbol_table_ok p Hn) as [st Hb]; [intros td Hin; destruct (Hps td Hin) as [? [? ?]]; auto|].
   destruct (build_symbol_table_spec p st Hb) as [Tb [_ [Hty [Hc [Hd _]]]]].
   pose proof (mono_world_of_prog p Hm Hn) as W. pose proof (wf_world_of_prog p W Ht0) as WF.
-  unfold check, check_gen. rewrite Hb. simpl. unfold check_with_table_gen.
+  unfold check_before_fix, check_gen. rewrite Hb. simpl. unfold check_with_table_gen.
   rewrite (check_type_decls_ok_conv _ _ st (fpdecls p) Tb); [|intros td Hin; destruct (Hps td Hin) as [? [? ?]]; auto]. simpl.
   rewrite defs_of_fdefs.
   destruct (check_defs_faithful _ _ W WF (fdefs (fpdecls p)) st) as [[ds' [st1 [H1 I1]]]|Hu]; [|exact Tb|apply minv_start; assumption| |].
